@@ -4,8 +4,8 @@
 //! memory blow-ups become observables of the parent instead of killing the check.
 //!
 //! stdin : `job <runtime-source-hex> <resource-name-hex|none> <container-hex>` per line
-//! stdout: `S <stage>` before each stage, `D|V|M|A|X <result>` after it, `R <runtime view>` before
-//!         the apply, `E` when the job is complete.  A stage that never answers killed the process.
+//! stdout: `S <stage>` before each stage, `D|V|M|A|X <result>` after it, `K <k> <composite value>` and
+//!         `R <runtime view>` before the apply, `E` when the job is complete.  A stage that never answers killed the process.
 
 use std::alloc::{GlobalAlloc, Layout, System};
 use std::collections::HashMap;
@@ -225,12 +225,57 @@ struct CachedRuntime {
     runtime: Runtime,
     baseline: Vec<u8>,
     view: String,
+    /// definitions of the composite (array / struct) values the view refers to as `C<k>`
+    composites: Vec<String>,
 }
 
-fn tag(v: &Value) -> String {
+/// Composite values are hash-consed: `C<k>` names definition `k`, children are defined first.
+///   `A <lo>:<hi>/<lo>:<hi>|- <tag>[*<run>]/...|-`     array: dimensions, elements (run-length coded)
+///   `S <hexname>=<tag>/...|-`                          struct: fields in declaration order
+#[derive(Default)]
+struct Composites {
+    defs: Vec<String>,
+    index: HashMap<String, usize>,
+}
+
+impl Composites {
+    fn intern(&mut self, def: String) -> String {
+        if let Some(k) = self.index.get(&def) {
+            return format!("C{k}");
+        }
+        let k = self.defs.len();
+        self.index.insert(def.clone(), k);
+        self.defs.push(def);
+        format!("C{k}")
+    }
+}
+
+fn tag(v: &Value, cs: &mut Composites) -> String {
     match v {
         Value::Instance(id) => format!("I{}", id.0),
-        Value::Struct(_) | Value::Array(_) => "C".into(),
+        Value::Array(a) => {
+            let dims = join_or_dash(a.dimensions.iter().map(|(l, u)| format!("{l}:{u}")).collect(), "/");
+            let mut runs: Vec<(String, usize)> = Vec::new();
+            for e in &a.elements {
+                let t = tag(e, cs);
+                match runs.last_mut() {
+                    Some((last, n)) if *last == t => *n += 1,
+                    _ => runs.push((t, 1)),
+                }
+            }
+            let elems = join_or_dash(
+                runs.into_iter().map(|(t, n)| if n == 1 { t } else { format!("{t}*{n}") }).collect(),
+                "/",
+            );
+            cs.intern(format!("A {dims} {elems}"))
+        }
+        Value::Struct(s) => {
+            let fields = join_or_dash(
+                s.fields.iter().map(|(name, f)| format!("{}={}", hex(name.as_bytes()), tag(f, cs))).collect(),
+                "/",
+            );
+            cs.intern(format!("S {fields}"))
+        }
         _ => "O".into(),
     }
 }
@@ -243,9 +288,9 @@ fn join_or_dash(xs: Vec<String>, sep: &str) -> String {
     }
 }
 
-fn runtime_view(rt: &Runtime) -> String {
+fn runtime_view(rt: &Runtime, cs: &mut Composites) -> String {
     let programs = join_or_dash(rt.programs().keys().map(|k| hex(k.as_bytes())).collect(), ",");
-    let globals = join_or_dash(rt.storage().globals().values().map(tag).collect(), ",");
+    let globals = join_or_dash(rt.storage().globals().values().map(|v| tag(v, cs)).collect(), ",");
     let mut ids: Vec<_> = rt.storage().instances().keys().copied().collect();
     ids.sort_by_key(|id| id.0);
     let instances = join_or_dash(
@@ -258,7 +303,7 @@ fn runtime_view(rt: &Runtime) -> String {
                     "{}:{}:{}",
                     id.0,
                     known as u8,
-                    join_or_dash(inst.variables.values().map(tag).collect(), ",")
+                    join_or_dash(inst.variables.values().map(|v| tag(v, cs)).collect(), ",")
                 )
             })
             .collect(),
@@ -281,8 +326,9 @@ fn build_runtime(source: &str) -> Result<CachedRuntime, String> {
     let harness = TestHarness::from_source(source).map_err(|e| format!("compile: {e}"))?;
     let runtime = harness.into_runtime();
     let baseline = bytecode_bytes_from_source(source).map_err(|e| format!("bytecode: {e}"))?;
-    let view = runtime_view(&runtime);
-    Ok(CachedRuntime { runtime, baseline, view })
+    let mut cs = Composites::default();
+    let view = runtime_view(&runtime, &mut cs);
+    Ok(CachedRuntime { runtime, baseline, view, composites: cs.defs })
 }
 
 // ---------------------------------------------------------------------------------------------
@@ -421,6 +467,9 @@ fn run_job(cache: &mut HashMap<String, Result<CachedRuntime, String>>, source_he
         say("X skipped");
         say("E");
         return;
+    }
+    for (k, def) in cached.composites.iter().enumerate() {
+        say(&format!("K {k} {def}"));
     }
     say(&format!("R {} {}", cached.view, state_view(&cached.runtime)));
     let res_name = if resource == "none" {
